@@ -224,13 +224,41 @@ def r17_3(ctx):
     b = ctx.body("transports::sctp::SctpInner::run_loop::{closure#0}")
     r.scope.append(b.name)
     ags = core.aggregates(b, lambda a: a.endswith("sctp::SctpCleanupGuard"))
-    r.need("SctpCleanupGuard construction", len(ags), 1)
+    if not any(n.endswith("sctp::SctpCleanupGuard") for n in ctx.facts.adts):
+        raise core.CheckerError("R17.3: the SctpCleanupGuard type no longer exists")
     yields = [i for i, blk in enumerate(b.blocks) if blk["t"]["k"] == "yield" and i not in b.cleanup]
-    gb = ags[0][0]
-    if yields and all(core.must_pass(b, y, [gb]) for y in yields):
-        r.ok({"site": b.where(gb), "before": "all %d await points of run_loop" % len(yields)})
-    else:
+    if not ags:
+        r.violate(b.name, "agg:SctpCleanupGuard", b.where(0), "run_loop no longer creates its cleanup guard: cancelling the task (abort on close / drop) "
+                  "leaves the channels Open and the flow-control waiters asleep")
+        return r
+    gb, _, gs = ags[0]
+    gl = gs["p"]["l"] if "p" not in gs["p"] else None
+    if not (yields and all(core.must_pass(b, y, [gb]) for y in yields)):
         r.violate(b.name, "agg:SctpCleanupGuard", b.where(gb), "an await point of run_loop can be reached before the cleanup guard exists (cancellation there leaks Open channels)")
+        return r
+    # ... and it stays alive: no drop / move of the guard from which an await point is still reachable
+    kills = []
+    for bi, blk in enumerate(b.blocks):
+        if bi in b.cleanup:
+            continue
+        t = blk["t"]
+        if t["k"] == "drop" and t["p"]["l"] == gl and "p" not in t["p"]:
+            kills.append(bi)
+        elif t["k"] == "call" and any(core._moves_local(a, gl) for a in t["a"]):
+            kills.append(bi)
+        else:
+            for s_ in blk["s"]:
+                if s_["k"] == "as":
+                    rv = s_["rv"]
+                    if any(core._moves_local(o, gl) for o in [rv.get("o"), rv.get("a"), rv.get("b")] + list(rv.get("ops", ()))):
+                        kills.append(bi)
+    early = [k for k in kills if any(y in b.reachable([t for t, _ in b.succ_edges(k)]) for y in yields)]
+    if gl is None or early:
+        r.violate(b.name, "agg:SctpCleanupGuard:dropped", b.where(early[0] if early else gb),
+                  "the cleanup guard is dropped / moved away while await points of run_loop are still ahead (e.g. `let _ = ...`): "
+                  "cancellation after that point leaks Open channels")
+    else:
+        r.ok({"site": b.where(gb), "before": "all %d await points of run_loop" % len(yields), "alive": "no drop/move of the guard with an await point still reachable (%d drop sites)" % len(kills)})
     return r
 
 
